@@ -651,3 +651,148 @@ func init() {
 			x.check(rec, k+" removed-candidate-is-recorded", x.pos(rem), "on the true edge of Remove the node is recorded as removed", "a removed candidate is no longer recorded in the result: no GC pair is registered for it and the reverse operation misses it")
 		}})
 }
+
+func init() {
+	register(&Rule{ID: "IDX.unit", Min: 3, Text: "one length unit per traversal of the index tree: in a function of pkg/index that takes an include-removed flag, a node's length is the flag's choice between VisibleLength and TotalLength (length := n.VisibleLength; if include { length = n.TotalLength }, or PaddedLength(include…)) — the VisibleLength field is never read on its own there; a tombstone-including traversal that compares a position with a live-only length treats a partly entered element as fully contained on the replica that already holds the other side's tombstones",
+		Run: func(x *Ctx) {
+			n := 0
+			for _, fn := range x.P.FuncsIn("pkg/index") {
+				if o := fn.Origin(); o != nil && o != fn {
+					continue
+				}
+				if fn.Parent() != nil {
+					continue
+				}
+				flagged := false
+				for _, pm := range fn.Params {
+					if strings.HasPrefix(strings.ToLower(pm.Name()), "include") {
+						flagged = true
+					}
+				}
+				if !flagged {
+					continue
+				}
+				fns := append([]*ssa.Function{fn}, prog.Closures(fn)...)
+				i := 0
+				for _, g := range fns {
+					for _, b := range g.Blocks {
+						for _, ins := range b.Instrs {
+							u, ok := ins.(*ssa.UnOp)
+							if !ok {
+								continue
+							}
+							f := prog.LoadedField(u)
+							if f == nil || f.Name() != "VisibleLength" {
+								continue
+							}
+							// a store into the field (+=) loads it first: that is bookkeeping, not measuring
+							isUpdate := false
+							paired := true
+							for _, r := range *u.Referrers() {
+								switch t := r.(type) {
+								case *ssa.DebugRef:
+								case *ssa.Phi:
+								case *ssa.BinOp:
+									for _, rr := range *t.Referrers() {
+										if st, isSt := rr.(*ssa.Store); isSt && prog.FieldVar(st.Addr) == f {
+											isUpdate = true
+										}
+									}
+									if !isUpdate {
+										paired = false
+									}
+								case *ssa.Store:
+									// spilled local that is also assigned TotalLength
+									if al, isA := t.Addr.(*ssa.Alloc); isA {
+										other := false
+										for _, ar := range *al.Referrers() {
+											if st2, isSt := ar.(*ssa.Store); isSt && st2 != t {
+												if f2 := prog.LoadedField(st2.Val); f2 != nil && f2.Name() == "TotalLength" {
+													other = true
+												}
+											}
+										}
+										if !other {
+											paired = false
+										}
+									} else {
+										paired = false
+									}
+								default:
+									paired = false
+								}
+							}
+							if isUpdate {
+								continue
+							}
+							i++
+							n++
+							x.check(paired, fmt.Sprintf("func=%s VisibleLength-read#%d chosen-by-the-flag", prog.FnName(fn), i), x.pos(u), "the live length is one arm of the flag's choice", "a function that takes an include-removed flag reads VisibleLength on its own: in the tombstone-including traversal the comparison is made against a live-only length")
+						}
+					}
+				}
+			}
+			if n < 3 {
+				x.C.Vacuous(x.id()+" reads", n, 3)
+			}
+		}})
+
+	register(&Rule{ID: "TREE.boundary", Min: 3, Text: "both ends of a tree range are resolved alike: a function of crdt.Tree that resolves two positions through FindTreeNodesWithSplitText passes the same boundary mode for both (Style and RemoveStyle: BoundaryRange for from and to; Edit: the default insert mode for both), and the sibling pair Style/RemoveStyle agree — a range whose one end is redirected into the merge target and whose other end is not skips the end token of the merged-away element on the replica that applied the merge first",
+		Run: func(x *Ctx) {
+			find := x.P.FnObj(crdtPkg + ".(*Tree).FindTreeNodesWithSplitText")
+			if find == nil {
+				x.C.Unresolved(x.id(), "Tree.FindTreeNodesWithSplitText")
+				return
+			}
+			modeOf := func(c ssa.CallInstruction) string {
+				last := c.Common().Args[len(c.Common().Args)-1]
+				if k, ok := last.(*ssa.Const); ok && k.IsNil() {
+					return "default"
+				}
+				if sl, ok := last.(*ssa.Slice); ok {
+					if al, isA := sl.X.(*ssa.Alloc); isA {
+						for _, r := range *al.Referrers() {
+							if ia, isIA := r.(*ssa.IndexAddr); isIA {
+								for _, rr := range *ia.Referrers() {
+									if st, isSt := rr.(*ssa.Store); isSt {
+										if k, isK := st.Val.(*ssa.Const); isK && k.Value != nil {
+											return k.Value.ExactString()
+										}
+										return "dynamic"
+									}
+								}
+							}
+						}
+					}
+				}
+				return "dynamic"
+			}
+			per := map[string]map[string]bool{}
+			n := 0
+			for _, fn := range x.P.FuncsIn(crdtPkg) {
+				cs := callsToIn(fn, find)
+				if len(cs) < 2 {
+					continue
+				}
+				n++
+				modes := map[string]bool{}
+				for _, c := range cs {
+					modes[modeOf(c)] = true
+				}
+				per[fn.Name()] = modes
+				x.check(len(modes) == 1, "func="+prog.FnName(fn)+" both-ends-same-boundary-mode", x.fpos(fn), fmt.Sprintf("all %d positions are resolved with mode %v", len(cs), keysOf(modes)), fmt.Sprintf("the positions of one range are resolved with different boundary modes %v", keysOf(modes)))
+			}
+			if a, b := per["Style"], per["RemoveStyle"]; a != nil && b != nil {
+				same := len(a) == len(b)
+				for k := range a {
+					if !b[k] {
+						same = false
+					}
+				}
+				x.check(same, "siblings=Style~RemoveStyle same-boundary-mode", "", "Style and RemoveStyle resolve their ranges alike", fmt.Sprintf("Style resolves its range with %v, RemoveStyle with %v", keysOf(a), keysOf(b)))
+			}
+			if n < 3 {
+				x.C.Vacuous(x.id()+" range functions", n, 3)
+			}
+		}})
+}
